@@ -962,6 +962,24 @@ def interval(fn, o, za=None, d=None, depth=8):
             inner = inner.kids[0]
         if inner.k == "bin":
             return interval(fn, inner, za, d, depth - 1)
+    if s.k == "field" and s.kids and str(s.a).isdigit():
+        # a component of a tuple built in this body (a helper's `(value, flag)` result): the component itself
+        inner = s.kids[0]
+        while inner.k in ("ref", "deref") and inner.kids:
+            inner = inner.kids[0]
+        alts = inner.kids if inner.k == "phi" else [inner]
+        comps = []
+        for a_ in alts:
+            a_ = a_.strip()
+            if a_.k == "agg" and a_.a == "tuple" and int(s.a) < len(a_.kids):
+                comps.append(a_.kids[int(s.a)])
+            else:
+                comps = None
+                break
+        if comps:
+            rs = [interval(fn, k_, za, d, depth - 1) for k_ in comps]
+            if all(r is not None for r in rs):
+                return (min(r[0] for r in rs), max(r[1] for r in rs))
     if s.k == "phi":
         rs = [interval(fn, k, za, d, depth - 1) for k in s.kids]
         if any(r is None for r in rs) or not rs:
